@@ -35,6 +35,17 @@ def generate():
     rel3 = "crates/libs/sciparse/src/scion/path/policy/acl.rs"
     c = src(rel3)
     need(c, r"if path\.is_empty\(\) \|\| self\.entries\.is_empty\(\) \{", "AclPolicy::matches empty shortcut", rel3)
+    # wildcard semantics the model's predicate matching follows
+    for rel4 in ("crates/libs/sciparse/src/scion/identifier/isd.rs", "crates/libs/sciparse/src/scion/identifier/asn.rs"):
+        need(src(rel4), r"self\.is_wildcard\(\) \|\| other\.is_wildcard\(\) \|\| self\.0 == other\.0", "matches: wildcard on either side", rel4)
+    rel5 = "crates/libs/sciparse/src/scion/path/policy/types.rs"
+    ty = src(rel5)
+    need(ty, r"self\.is_wildcard\(\) \|\| self\.0 == interface", "InterfacePredicate::matches", rel5)
+    need(ty, r"InterfacesPredicate::Either\(any\) => any\.matches\(hop_ingress\) \|\| any\.matches\(hop_egress\)", "InterfacesPredicate::matches Either", rel5)
+    need(ty, r"ingress\.matches\(hop_ingress\) && egress\.matches\(hop_egress\)", "InterfacesPredicate::matches Both", rel5)
+    need(t, r"pos < hops\.len\(\) && hops\[pos\]\.matches\(pred\)", "match_from guarded index", rel)
+    need(t, r"while !frontier\.is_empty\(\) \{", "all_nested_matches loop", rel)
+    need(t, r"if self\.pos < self\.tokens\.len\(\) - 1 \{", "parse trailing-token check", rel)
     tok = {k: ord(ch) for ch, k in singles}
     body = f"""From Coq Require Import NArith List.
 Import ListNotations.
